@@ -24,8 +24,16 @@ def allCells : List Zone → List Nat
 /-- `c` is the address of a cell of zone `z` -/
 def InZone (z : Zone) (c : Nat) : Prop := ∃ i, i < z.ncells ∧ c = z.base + i * z.elemsz
 
-/-- a well-formed zone: `elemsz > 0` and `size % elemsz == 0` (the `assert` of `pool_engage`) -/
-def Zone.WF (z : Zone) : Prop := 0 < z.elemsz ∧ z.size % z.elemsz = 0
+/-- a well-formed zone = what the two `assert`s of `pool_engage` demand: a cell can hold the
+8-byte link (`elemsz >= sizeof(struct slist_head)`) and the zone is whole cells (`size % elemsz == 0`) -/
+def Zone.WF (z : Zone) : Prop := 8 ≤ z.elemsz ∧ z.size % z.elemsz = 0
+
+theorem Zone.WF.pos {z : Zone} (h : z.WF) : 0 < z.elemsz := by have := h.1; omega
+
+theorem not_refused_wf {b sz e : Nat} (h : ¬ engageRefused sz e = true) : (⟨b, sz, e⟩ : Zone).WF := by
+  simp only [engageRefused, Bool.or_eq_true, decide_eq_true_eq, bne_iff_ne, ne_eq, not_or, Nat.not_lt,
+    Decidable.not_not] at h
+  exact h
 
 theorem mem_zcells {z : Zone} {c : Nat} : c ∈ zcells z ↔ InZone z c := by
   simp only [zcells, List.mem_map, List.mem_range, InZone]
@@ -101,7 +109,7 @@ theorem allCells_nodup {zs : List Zone} (hd : zs.Pairwise (fun z w => z.disjoint
     rw [List.pairwise_cons] at hd
     simp only [allCells]
     rw [List.nodup_append]
-    refine ⟨zcells_nodup z (hw z (by simp)).1, ih hd.2 (fun w hw' => hw w (by simp [hw'])), ?_⟩
+    refine ⟨zcells_nodup z (hw z (by simp)).pos, ih hd.2 (fun w hw' => hw w (by simp [hw'])), ?_⟩
     intro a ha b hb hab
     subst hab
     obtain ⟨w, hwz, hin⟩ := mem_allCells.1 hb
@@ -138,7 +146,8 @@ theorem engageLoop_at (e b n : Nat) (he : 0 < e) : ∀ fuel k fl, k ≤ n → n 
 keeps that list: nothing that was free before is lost -/
 theorem engageAt_eq (p : Pool) (z : Zone) (hw : z.WF) :
     (p.engageAt z.base z.size z.elemsz).free = (zcells z).reverse ++ p.free := by
-  obtain ⟨he, hd⟩ := hw
+  have he : 0 < z.elemsz := hw.pos
+  have hd := hw.2
   have hsz : z.size = z.ncells * z.elemsz := (Nat.div_mul_cancel (Nat.dvd_of_mod_eq_zero hd)).symm
   have hle : z.ncells ≤ z.size := by
     rw [hsz]; exact Nat.le_mul_of_pos_right _ he
@@ -182,8 +191,7 @@ theorem mstep_inv {s s' : MState} {op : MOp} {ret : Option Nat} (hi : MInv s)
       · rename_i hall
         simp only [Option.some.injEq, Prod.mk.injEq] at hs
         obtain ⟨rfl, _⟩ := hs
-        have hwz : (⟨b, sz, e⟩ : Zone).WF := by
-          refine ⟨?_, ?_⟩ <;> simp only <;> omega
+        have hwz : (⟨b, sz, e⟩ : Zone).WF := not_refused_wf hc
         refine ⟨?_, ?_, ?_⟩
         · simp only
           rw [show s.pool.engageAt b sz e = s.pool.engageAt (⟨b, sz, e⟩ : Zone).base (⟨b, sz, e⟩ : Zone).size
@@ -322,6 +330,30 @@ theorem engageEvs_inside (e b n : Nat) (he : 8 ≤ e) : ∀ fuel k, k ≤ n →
         exact ih (k + 1) hkn ev hev
     · cases hev
 
+/-- every link store of `pool_engage` is the first 8 bytes of one cell of the zone -/
+theorem engageEvs_cells (e b n : Nat) (he : 0 < e) : ∀ fuel k0, k0 ≤ n →
+    ∀ ev ∈ engageEvs e (b + n * e) fuel (b + k0 * e), ∃ k, k0 ≤ k ∧ k < n ∧ ev = .w (b + k * e) 8 := by
+  intro fuel
+  induction fuel with
+  | zero => intro k0 _ ev hev; simp [engageEvs] at hev
+  | succ fuel ih =>
+    intro k0 hk ev hev
+    simp only [engageEvs] at hev
+    split at hev
+    · rename_i hlt
+      have hkn : k0 < n := by
+        by_cases h : k0 < n
+        · exact h
+        · have : n * e ≤ k0 * e := Nat.mul_le_mul_right e (by omega)
+          omega
+      rcases List.mem_cons.1 hev with rfl | hev
+      · exact ⟨k0, Nat.le_refl _, hkn, rfl⟩
+      · have h2 : b + k0 * e + e = b + (k0 + 1) * e := by rw [Nat.add_mul, Nat.one_mul]; omega
+        rw [h2] at hev
+        obtain ⟨k, h1, h3, h4⟩ := ih (k0 + 1) hkn ev hev
+        exact ⟨k, by omega, h3, h4⟩
+    · cases hev
+
 /-! ### pointer level -/
 
 theorem engageLoopP_rep' (e stop head : Nat) : ∀ (fuel it : Nat) (m : Links) (fl : List Nat),
@@ -395,7 +427,7 @@ theorem mstepP_rep {s s' : MState} {op : MOp} {r : Option Nat} {m : Links} {head
         refine ⟨rfl, ?_⟩
         simp only [mstepP, engageAtP, Pool.engageAt]
         have hwz : (⟨b, sz, e⟩ : Zone).WF := hi'.wf _ (by simp)
-        refine engageLoopP_rep' e (b + sz) head (sz + 1) b m _ hr (fun c hc => ?_) ?_ hwz.1
+        refine engageLoopP_rep' e (b + sz) head (sz + 1) b m _ hr (fun c hc => ?_) ?_ hwz.pos
         · obtain ⟨w, hw, hin⟩ := hi.facts.2.2.2.1 c (Or.inr hc)
           have hrg := hin.range (hi.wf w hw)
           have hd := (List.all_eq_true.1 hall) w hw
@@ -460,7 +492,7 @@ theorem mrunP_rep {ops : List MOp} {s s' : MState} {m : Links} {head : Nat}
 /-! ### the stores of a multi-zone history avoid the cells that stay handed out -/
 
 theorem mstep_evs_avoid {s s' : MState} {op : MOp} {r : Option Nat} (hi : MInv s)
-    (hs : mstep s op = some (s', r)) (h8 : ∀ z ∈ s'.zones, 8 ≤ z.elemsz) :
+    (hs : mstep s op = some (s', r)) :
     ∀ ev ∈ mstepEvs s op, ∀ c ∈ s.live, c ∈ s'.live → ∀ z ∈ s'.zones, InZone z c →
       ev.Avoids c (c + z.elemsz) := by
   have hi' := mstep_inv hi hs
@@ -475,7 +507,7 @@ theorem mstep_evs_avoid {s s' : MState} {op : MOp} {r : Option Nat} (hi : MInv s
         simp only [Option.some.injEq, Prod.mk.injEq] at hs
         obtain ⟨rfl, _⟩ := hs
         have hwz : (⟨b, sz, e⟩ : Zone).WF := hi'.wf _ (by simp)
-        have he8 : 8 ≤ e := h8 ⟨b, sz, e⟩ (by simp)
+        have he8 : 8 ≤ e := hwz.1
         have hsz : sz = sz / e * e := (Nat.div_mul_cancel (Nat.dvd_of_mod_eq_zero hwz.2)).symm
         -- all stores stay inside the new zone
         have hin : ev.Inside b (b + sz) := by
@@ -511,7 +543,7 @@ theorem mstep_evs_avoid {s s' : MState} {op : MOp} {r : Option Nat} (hi : MInv s
       subst hev
       have hne : c ≠ c0 := ((List.Nodup.mem_erase_iff hi.facts.1).1 hc').1
       obtain ⟨w, hw, hwc⟩ := hi.facts.2.2.2.1 c0 (Or.inl hc0')
-      have hew := h8 w hw
+      have hew := (hi.wf w hw).1
       have hdis : c + z.elemsz ≤ c0 ∨ c0 + w.elemsz ≤ c := by
         rcases zones_eq_or_disjoint hi.disj hz hw with rfl | hd
         · exact cells_of_one_zone hzc hwc hne
@@ -568,7 +600,7 @@ theorem mrunE_zones {ops : List MOp} {s s' : MState} {evs : List Ev} (hr : mrunE
 every byte of it keeps its value, whatever zones are engaged and whatever other
 cells are allocated and freed in between -/
 theorem mrunE_frame {ops : List MOp} {s s' : MState} {evs : List Ev} (hi : MInv s)
-    (hr : mrunE s ops = some (s', evs)) (h8 : ∀ z ∈ s'.zones, 8 ≤ z.elemsz)
+    (hr : mrunE s ops = some (s', evs))
     {c : Nat} (hc : c ∈ s.live) (hne : ∀ op ∈ ops, op ≠ .free c) {z : Zone} (hz : z ∈ s.zones)
     (hzc : InZone z c) {m m' : Mem} (hx : Exec m evs m') :
     c ∈ s'.live ∧ ∀ x, c ≤ x → x < c + z.elemsz → m' x = m x := by
@@ -591,8 +623,7 @@ theorem mrunE_frame {ops : List MOp} {s s' : MState} {evs : List Ev} (hi : MInv 
         obtain ⟨m1, ha, hb⟩ := Exec.append hx
         have hc1 := mstep_keeps_live hs hc (hne op (by simp))
         have hz1 := mstep_zones hs z hz
-        have h81 : ∀ z ∈ s1.zones, 8 ≤ z.elemsz := fun w hw => h8 w (mrunE_zones (by rw [hx2]) w hw)
-        have hav := mstep_evs_avoid hi hs h81
+        have hav := mstep_evs_avoid hi hs
         have h1 := Exec.frame ha (fun e he => hav e he c hc hc1 z hz1 hzc)
         have h2 := ih (mstep_inv hi hs) (by rw [hx2]) hc1 (fun o ho => hne o (by simp [ho])) hz1 hb
         exact ⟨h2.1, fun y hy1 hy2 => by rw [h2.2 y hy1 hy2, h1 y hy1 hy2]⟩
@@ -611,7 +642,7 @@ theorem SXInv.init (szT alT cap : Nat) : SXInv (storageSize szT alT) (SOPx.init 
   refine ⟨⟨?_, by simp [SOPx.init], ?_⟩, rfl, by simp [SOPx.init, SOP.init], by simp [SOPx.init]⟩
   · simp only [SOPx.init, SOP.init, allCells, List.append_nil]
     have hwz : (⟨0, cap * storageSize szT alT, storageSize szT alT⟩ : Zone).WF :=
-      ⟨he, Nat.mul_mod_left _ _⟩
+      ⟨storageSize_pos szT alT, Nat.mul_mod_left _ _⟩
     have := engageAt_eq Pool.init ⟨0, cap * storageSize szT alT, storageSize szT alT⟩ hwz
     simp only [engageAt_zero, Pool.init, List.append_nil] at this
     simp only [Pool.init]
@@ -620,7 +651,7 @@ theorem SXInv.init (szT alT cap : Nat) : SXInv (storageSize szT alT) (SOPx.init 
   · intro z hz
     simp only [SOPx.init, List.mem_singleton] at hz
     subst hz
-    exact ⟨he, Nat.mul_mod_left _ _⟩
+    exact ⟨storageSize_pos szT alT, Nat.mul_mod_left _ _⟩
 
 theorem sxstep_inv {st : Nat} {p p' : SOPx} {op : SXOp} {ret : Option Nat} (hi : SXInv st p)
     (hs : sxstep st p op = some (p', ret)) : SXInv st p' := by
@@ -686,7 +717,7 @@ theorem sxstep_inv {st : Nat} {p p' : SOPx} {op : SXOp} {ret : Option Nat} (hi :
         have hms : mstep ⟨p.sop.head, p.sop.objs, p.zones⟩ (.engage b (n * st) st) =
             some (⟨p.sop.head.engageAt b (n * st) st, p.sop.objs, ⟨b, n * st, st⟩ :: p.zones⟩, none) := by
           simp only [mstep]
-          rw [if_neg (by simp [Nat.mul_mod_left]; omega), if_pos hall]
+          rw [if_neg hst, if_pos hall]
         refine ⟨mstep_inv hm hms, hflt, hled, ?_⟩
         intro z hz
         rcases List.mem_cons.1 hz with rfl | hz
